@@ -14,6 +14,13 @@
 //	LAUNCH := ok|die|slow   CFG := ok|stay|err   TR := ok|<EV>:stay|<EV>:err   KILL := ok|failed|delay   HOOK := ok|fail
 //	ROUND := (OP+)                                 the operations of a round are issued concurrently; a round ends when all returned
 //	OP    := (new K) | (ctl K EV) | (destroy K FORCE ALLOWRUNNING KEEP) | (cleanup) | (killenv K) | (rel K)
+//	       | (newd K FORCE ALLOWRUNNING KEEP)      NewEnvironment K and, WHILE its deployment is in flight, DestroyEnvironment on it: the
+//	                                               launch reaction of K's first task role is held at gate D<K> (a `slow` one stays at its gate
+//	                                               L<K>: the deployment is open until its timeout); the harness learns the id from
+//	                                               GetEnvironments (the environment is listed from the moment CreateEnvironment entered it in
+//	                                               the map), issues the destroy once the listing shows a transition in progress, waits until the
+//	                                               core has logged that the teardown waits behind that transition (or a call returned), and only
+//	                                               then opens the gate. At most one creation per round that has a newd.
 //	       | (xfail K J UPD) | (afail K J UPD)     the executor / the agent of the task launched for role J of environment K fails
 //	                                               (Mesos FAILURE event; UPD=1: preceded by the terminal status updates of its tasks).
 //	                                               In the round of `(new K)` (after it, once at most): the failure hits while the creation
@@ -29,9 +36,16 @@
 //	(ROUNDOBS*)
 //	ROUNDOBS := ((RES*) SNAP (HK*))
 //	RES  := (ok STATE) | (ok) | (ok N) | (err CLASS) | (hang) | (crash)
+//	      | (nd RES RES OV)                        newd: the creation's answer, the destroy's answer, and OV = the transition the core logged
+//	                                               the teardown to be waiting behind (DEPLOY, CONFIGURE, …: the destroy provably overlapped the
+//	                                               creation) or `-` (the destroy was not delayed: a sequential case; nothing is concluded from timing)
 //	      | (lost K*)                              xfail / afail: the environments whose watcher reacted ("one of the critical tasks went
 //	                                               into ERROR state": GO_ERROR, STOP of the tasks still RUNNING), ascending
-//	SNAP := crashed | ((ENVOBS*) (ROSTER*) (DET*) (MT*) (CALL*))
+//	SNAP := crashed | wedged | ((ENVOBS*) (ROSTER*) (DET*) (MT*) (CALL*))
+//	                                               wedged: a call did not return, the core no longer answers GetEnvironment(s), and its goroutine
+//	                                               dump (SIGQUIT: the scenario ends here) shows the environment manager's mutex deadlocked —
+//	                                               a TeardownEnvironment inside `envs.environment()` waiting for a read lock it already holds
+//	                                               while another goroutine of the environment manager waits for the write lock
 //	ENVOBS := (K STATE (DET*) (TN*))               listed environments: state, included detectors, referenced tasks
 //	ROSTER := (TN OWNER LOCKED STATE)              GetTasks + GetTask: owner = environment index or "-", role state or "-"
 //	MT   := (TN MSTATE KILLED)                     master's task table: staging|running|terminal, 1 iff a KILL call named it
@@ -115,6 +129,9 @@ type Scenario struct {
 	// CfgHold: environment -> task role whose CONFIGURE reaction is held at gate C<K> until the loss
 	// operation issued in the round of the creation has been noted by the core.
 	CfgHold map[int]int
+	// During: environment created by a `newd` -> the task / hook role whose launch reaction is held (gate D<K>, or its own
+	// gate L<K> if it is a `slow` one) while the destroy is issued.
+	During map[int]int
 }
 
 func Parse(input string) (*Scenario, error) {
@@ -125,7 +142,7 @@ func Parse(input string) (*Scenario, error) {
 	if n.Len() != 3 {
 		return nil, fmt.Errorf("scenario needs 3 fields")
 	}
-	sc := &Scenario{Reuse: n.At(0).Bool(), CfgHold: map[int]int{}}
+	sc := &Scenario{Reuse: n.At(0).Bool(), CfgHold: map[int]int{}, During: map[int]int{}}
 	for _, e := range n.At(1).List {
 		if e.Len() != 3 {
 			return nil, fmt.Errorf("bad env %s", e)
@@ -167,7 +184,7 @@ func Parse(input string) (*Scenario, error) {
 				op.K = o.At(1).Int()
 			case "ctl":
 				op.K, op.Ev = o.At(1).Int(), o.At(2).Str()
-			case "destroy":
+			case "destroy", "newd":
 				if o.Len() != 5 {
 					return nil, fmt.Errorf("bad op %s", o)
 				}
@@ -187,16 +204,32 @@ func Parse(input string) (*Scenario, error) {
 			if op.Kind != "cleanup" && (op.K < 0 || op.K >= len(sc.Envs)) {
 				return nil, fmt.Errorf("op %s names no environment", o)
 			}
-			if op.Kind == "new" {
+			if op.Kind == "new" || op.Kind == "newd" {
 				if created[op.K] {
 					return nil, fmt.Errorf("environment %d created twice", op.K)
 				}
 				created[op.K] = true
 				newHere[op.K] = true
+				if op.Kind == "newd" {
+					hold := -1
+					for i, ro := range sc.Envs[op.K].Roles {
+						if ro.Kind != "P" {
+							hold = i
+							break
+						}
+					}
+					if hold < 0 {
+						return nil, fmt.Errorf("op %s: no task role whose launch could hold the deployment open", o)
+					}
+					sc.During[op.K] = hold
+				}
 			} else if (op.Kind == "xfail" || op.Kind == "afail") && newHere[op.K] {
 				// the loss hits the creation inside CONFIGURE: another task role on another host holds the configuration
 				if _, dup := sc.CfgHold[op.K]; dup {
 					return nil, fmt.Errorf("op %s: one loss per creation round", o)
+				}
+				if _, d := sc.During[op.K]; d {
+					return nil, fmt.Errorf("op %s: no loss inside a creation that is destroyed in flight", o)
 				}
 				roles := sc.Envs[op.K].Roles
 				hold := -1
@@ -216,6 +249,20 @@ func Parse(input string) (*Scenario, error) {
 		}
 		if len(ops) == 0 {
 			return nil, fmt.Errorf("empty round")
+		}
+		nNew, nDuring := 0, 0
+		for _, op := range ops {
+			switch op.Kind {
+			case "new":
+				nNew++
+			case "newd":
+				nNew++
+				nDuring++
+			}
+		}
+		if nDuring > 0 && nNew > 1 {
+			// the environment in creation is recognised as THE id the harness has not been told yet
+			return nil, fmt.Errorf("a round with a newd has no other creation")
 		}
 		sc.Rounds = append(sc.Rounds, ops)
 	}
@@ -274,6 +321,8 @@ type runner struct {
 	dumped   bool
 	hung     bool
 	watchErr error
+	wedgeOne sync.Once
+	wedged   bool
 }
 
 func ctx() (context.Context, context.CancelFunc) {
@@ -376,6 +425,16 @@ func Run(input string) (string, error) {
 			case "slow":
 				w.SetOutcome(sel, sim.EvLaunch, sim.Outcome{Kind: sim.OK, Gate: fmt.Sprintf("L%d", k)})
 			}
+			if h, ok := sc.During[k]; ok && h == j {
+				// the deployment of a `newd` stays open until the harness has issued the destroy
+				switch ro.Launch {
+				case "die":
+					w.SetOutcome(sel, sim.EvLaunch, sim.Outcome{Kind: sim.Die, Gate: fmt.Sprintf("D%d", k)})
+				case "slow":
+				default:
+					w.SetOutcome(sel, sim.EvLaunch, sim.Outcome{Kind: sim.OK, Gate: fmt.Sprintf("D%d", k)})
+				}
+			}
 			cfgGate := ""
 			if h, ok := sc.CfgHold[k]; ok && h == j {
 				cfgGate = fmt.Sprintf("C%d", k)
@@ -441,7 +500,16 @@ func Run(input string) (string, error) {
 			}
 		}
 		ro := sx.L(sx.L(res...))
+		r.mu.Lock()
+		wedged := r.wedged
+		r.mu.Unlock()
+		if wedged {
+			ro.Add(sx.A("wedged"), sx.L())
+			obs.Add(ro)
+			break
+		}
 		if !w.CoreAlive() {
+			keepCrashStderr(w)
 			if dir := os.Getenv("OWNH_DEBUG"); dir != "" {
 				os.MkdirAll(dir, 0o755)
 				b, _ := os.ReadFile(w.Dir() + "/core.1.stderr")
@@ -487,6 +555,9 @@ func envIDFromError(err error) string {
 
 func classifyNewErr(msg string) string {
 	switch {
+	case strings.Contains(msg, "cannot get newly created environment"):
+		// CreateEnvironment succeeded and the environment was gone when the reply was put together
+		return "gone"
 	case strings.Contains(msg, "public info parsing failed"), strings.Contains(msg, "cannot load workflow template"):
 		return "load"
 	case strings.Contains(msg, "is already in use"):
@@ -651,6 +722,8 @@ func (r *runner) do(op Op) (*sx.Node, error) {
 		return sx.L(sx.A("ok")), nil
 	case "xfail", "afail":
 		return r.lose(op)
+	case "newd":
+		return r.newDuring(op)
 	}
 	return nil, fmt.Errorf("bad op")
 }
@@ -884,6 +957,9 @@ func (r *runner) diagnoseDestroyHang(op Op, id string) (*sx.Node, error) {
 		r.mu.Unlock()
 		return sx.L(sx.A("hang")), nil
 	}
+	if err != nil && rpcInfra(err) != nil && r.managerWedged() {
+		return sx.L(sx.A("hang")), nil
+	}
 	return nil, &sim.InfraError{What: fmt.Sprintf("op %+v did not return and the core does not show a teardown in progress (%v)", op, err)}
 }
 
@@ -897,6 +973,9 @@ func (r *runner) diagnoseNewHang(op Op) (*sx.Node, error) {
 	defer cancel()
 	er, err := r.w.Client().GetEnvironments(c, &pb.GetEnvironmentsRequest{ShowAll: true})
 	if err != nil {
+		if rpcInfra(err) != nil && r.managerWedged() {
+			return sx.L(sx.A("hang")), nil
+		}
 		return nil, &sim.InfraError{What: "GetEnvironments after a creation that did not return", Err: err}
 	}
 	r.mu.Lock()
@@ -1200,4 +1279,270 @@ func (r *runner) acked() bool {
 		}
 	}
 	return acks >= ups
+}
+
+// delayedLine is what TeardownEnvironment logs when it finds the environment's transition mutex taken:
+// "environment teardown attempt delayed: transition 'DEPLOY' in progress. waiting for completion or failure".
+const delayedLine = "environment teardown attempt delayed: transition '"
+
+// teardownDelayedBehind: the transition the core logged a teardown of environment id to be waiting behind ("" if none was logged).
+func (r *runner) teardownDelayedBehind(id string) string {
+	if id == "" {
+		return ""
+	}
+	b, _ := os.ReadFile(r.w.CoreLog())
+	for _, l := range strings.Split(string(b), "\n") {
+		i := strings.Index(l, delayedLine)
+		if i < 0 || !strings.Contains(l, "partition="+id) {
+			continue
+		}
+		rest := l[i+len(delayedLine):]
+		if j := strings.Index(rest, "'"); j >= 0 {
+			if rest[:j] == "" {
+				return "?"
+			}
+			return rest[:j]
+		}
+	}
+	return ""
+}
+
+// newDuring: NewEnvironment K and a DestroyEnvironment on it while its deployment is in flight.
+// The launch reaction of one task role is held (gate D<K>; a `slow` role stays at L<K> and the
+// deployment is open until its timeout). The environment is addressable from the moment
+// CreateEnvironment entered it in the map: the harness learns its id from GetEnvironments (the one
+// id it has not been told yet), waits until the listing shows a transition in progress, issues the
+// destroy and waits until the core has logged that the teardown waits behind that transition — or
+// until either call returned: nothing is concluded from timing, a destroy that was not delayed is
+// recorded as such (OV = -) and is simply a sequential case. Then the gate is opened and both
+// answers are collected.
+func (r *runner) newDuring(op Op) (*sx.Node, error) {
+	gate := fmt.Sprintf("D%d", op.K)
+	defer r.w.Release(gate)
+	type out struct {
+		n   *sx.Node
+		err error
+	}
+	newCh := make(chan out, 1)
+	go func() {
+		n, err := r.do(Op{Kind: "new", K: op.K})
+		newCh <- out{n, err}
+	}()
+	var newRes *out
+	newReturned := func() bool {
+		if newRes != nil {
+			return true
+		}
+		select {
+		case o := <-newCh:
+			newRes = &o
+			return true
+		default:
+			return false
+		}
+	}
+	cl := r.w.Client()
+	id := ""
+	deadline := time.Now().Add(Ceiling)
+	for !newReturned() {
+		if time.Now().After(deadline) {
+			r.w.Release(gate)
+			o := <-newCh
+			if o.err != nil {
+				return nil, o.err
+			}
+			return nil, &sim.InfraError{What: fmt.Sprintf("op %+v: the environment in creation was never listed inside a transition", op)}
+		}
+		c, cancel := ctx()
+		er, err := cl.GetEnvironments(c, &pb.GetEnvironmentsRequest{ShowAll: true})
+		cancel()
+		if err != nil {
+			if ie := rpcInfra(err); ie != nil || !crashed(err) {
+				r.w.Release(gate)
+				<-newCh
+				return nil, &sim.InfraError{What: "GetEnvironments during a creation", Err: err}
+			}
+			time.Sleep(2 * time.Millisecond)
+			continue
+		}
+		r.mu.Lock()
+		var unknown []*pb.EnvironmentInfo
+		for _, e := range er.GetEnvironments() {
+			if k, ok := r.ids[e.GetId()]; !ok || k == op.K {
+				unknown = append(unknown, e)
+			}
+		}
+		if len(unknown) == 1 && unknown[0].GetCurrentTransition() != "" {
+			id = unknown[0].GetId()
+			r.ids[id] = op.K
+			r.idOf[op.K] = id
+		}
+		r.mu.Unlock()
+		if id != "" {
+			break
+		}
+		time.Sleep(time.Millisecond)
+	}
+	if id == "" {
+		id = r.envID(op.K) // the creation returned before it was seen in the listing (it may never have been entered)
+	}
+	if id == "" {
+		// no id was ever handed out (cannot happen: every answer of NewEnvironment carries one)
+		return nil, &sim.InfraError{What: fmt.Sprintf("op %+v: no environment id to destroy", op)}
+	}
+	dCh := make(chan out, 1)
+	go func() {
+		n, err := r.do(Op{Kind: "destroy", K: op.K, Force: op.Force, Allow: op.Allow, Keep: op.Keep})
+		dCh <- out{n, err}
+	}()
+	var dRes *out
+	deadline = time.Now().Add(Ceiling)
+	for !newReturned() && dRes == nil && r.teardownDelayedBehind(id) == "" {
+		select {
+		case o := <-dCh:
+			dRes = &o
+		case <-time.After(time.Millisecond):
+		}
+		if time.Now().After(deadline) {
+			break
+		}
+	}
+	r.w.Release(gate)
+	if newRes == nil {
+		o := <-newCh
+		newRes = &o
+	}
+	if dRes == nil {
+		o := <-dCh
+		dRes = &o
+	}
+	if newRes.err != nil {
+		return nil, newRes.err
+	}
+	if dRes.err != nil {
+		return nil, dRes.err
+	}
+	ov := r.teardownDelayedBehind(id)
+	if ov == "" {
+		ov = "-"
+	}
+	return sx.L(sx.A("nd"), newRes.n, dRes.n, sx.A(ov)), nil
+}
+
+// keepCrashStderr keeps the stderr of a core that died by itself (diagnosis of rare crashes; no influence on the observation).
+func keepCrashStderr(w *sim.World) {
+	b, err := os.ReadFile(w.Dir() + "/core.1.stderr")
+	if err != nil || len(b) == 0 {
+		return
+	}
+	if len(b) > 256<<10 {
+		b = b[len(b)-(256<<10):]
+	}
+	dir := "/verif/.work/ownh-crashes"
+	if os.MkdirAll(dir, 0o755) == nil {
+		os.WriteFile(fmt.Sprintf("%s/crash-%d-%d.stderr", dir, time.Now().Unix(), os.Getpid()), b, 0o644)
+	}
+}
+
+// managerWedged is called when a call has not returned AND the core no longer answers a listing
+// request either. A deadline proves nothing, so the core is asked for positive evidence: SIGQUIT
+// makes the Go runtime print every goroutine's stack and exit (the scenario ends here whatever
+// the verdict). The verdict is true iff the dump shows the deadlock of the environment manager's
+// RWMutex that TeardownEnvironment's nested read lock allows:
+//   - a goroutine blocked in sync.RWMutex.RLock inside environment.(*Manager).environment called
+//     from environment.(*Manager).TeardownEnvironment (which holds a read lock of the same mutex
+//     around that call), and
+//   - a goroutine blocked in sync.RWMutex.Lock in a method of environment.(*Manager) — the
+//     pending writer that makes the second read lock wait, and that waits for the first;
+//   - where both semaphore addresses can be read off the dump, they belong to one RWMutex
+//     (writerSem and readerSem are adjacent words).
+//
+// Neither goroutine can ever proceed: this is a state, not a timing guess.
+func (r *runner) managerWedged() bool {
+	r.wedgeOne.Do(func() {
+		exec.Command("pkill", "-QUIT", "-f", "coreWorkingDir="+r.w.Dir()+"/").Run()
+		_ = sim.Poll("core exit after SIGQUIT", 10*time.Second, func() (bool, error) { return !r.w.CoreAlive(), nil })
+		b, _ := os.ReadFile(r.w.Dir() + "/core.1.stderr")
+		v := WedgeSignature(string(b))
+		if dir := os.Getenv("OWNH_DEBUG"); dir != "" {
+			os.MkdirAll(dir, 0o755)
+			os.WriteFile(fmt.Sprintf("%s/wedge-%v-%d-%d.stderr", dir, v, os.Getpid(), time.Now().UnixNano()), b, 0o644)
+		}
+		r.mu.Lock()
+		r.wedged = v
+		if v {
+			r.hung = true
+		}
+		r.mu.Unlock()
+	})
+	r.mu.Lock()
+	defer r.mu.Unlock()
+	return r.wedged
+}
+
+// WedgeSignature: see managerWedged.
+func WedgeSignature(dump string) bool {
+	semAddr := func(block string) string {
+		i := strings.Index(block, "runtime.semacquire1(")
+		if i < 0 {
+			return ""
+		}
+		rest := block[i+len("runtime.semacquire1("):]
+		if j := strings.IndexAny(rest, ",)"); j > 0 {
+			return rest[:j]
+		}
+		return ""
+	}
+	var readers, writers []string
+	for _, g := range strings.Split(dump, "\n\ngoroutine ") {
+		nl := strings.Index(g, "\n")
+		if nl < 0 {
+			continue
+		}
+		head := g[:nl]
+		switch {
+		case strings.Contains(head, "[sync.RWMutex.RLock"):
+			i := strings.Index(g, "core/environment.(*Manager).environment(")
+			if i < 0 {
+				continue
+			}
+			// the caller's frame follows the callee's
+			rest := g[i:]
+			frames := 0
+			for _, l := range strings.Split(rest, "\n") {
+				if strings.HasPrefix(l, "\t") || l == "" {
+					continue
+				}
+				frames++
+				if frames == 2 {
+					if strings.Contains(l, "core/environment.(*Manager).TeardownEnvironment(") {
+						readers = append(readers, semAddr(g))
+					}
+					break
+				}
+			}
+		case strings.Contains(head, "[sync.RWMutex.Lock"):
+			if strings.Contains(g, "core/environment.(*Manager).") {
+				writers = append(writers, semAddr(g))
+			}
+		}
+	}
+	for _, ra := range readers {
+		for _, wa := range writers {
+			if ra == "" || wa == "" {
+				return true
+			}
+			var a, b uint64
+			if _, err := fmt.Sscanf(ra, "0x%x", &a); err != nil {
+				return true
+			}
+			if _, err := fmt.Sscanf(wa, "0x%x", &b); err != nil {
+				return true
+			}
+			if a == b+4 {
+				return true
+			}
+		}
+	}
+	return false
 }
